@@ -160,6 +160,8 @@ func (e *expr) item() string {
 		return "set(ta | tb)"
 	case "setna":
 		return "set(~ta)"
+	case "setnone":
+		return "set(ta & tb)"
 	case "la":
 		return "(?= X)"
 	case "opt":
@@ -318,6 +320,9 @@ func denote1(e *expr) *extsem.Lang {
 		return lSetAB
 	case "setna":
 		return lSetNA
+	case "setnone":
+		// A set stands for a choice of its terminals: no terminals, no string.
+		return extsem.LEmpty(numTerms, maxLen)
 	case "la":
 		return lEps
 	case "opt":
@@ -474,6 +479,9 @@ func (b *modelBuilder) conv(e *expr) *syntax.Expr {
 	case "setna":
 		return b.set(&syntax.TokenSet{Kind: syntax.Complement, Origin: o, Sub: []*syntax.TokenSet{
 			{Kind: syntax.Any, Symbol: tA, Origin: o}}})
+	case "setnone":
+		return b.set(&syntax.TokenSet{Kind: syntax.Intersection, Origin: o, Sub: []*syntax.TokenSet{
+			{Kind: syntax.Any, Symbol: tA, Origin: o}, {Kind: syntax.Any, Symbol: tB, Origin: o}}})
 	case "la":
 		return &syntax.Expr{Kind: syntax.Lookahead, Origin: o, Sub: []*syntax.Expr{
 			{Kind: syntax.Reference, Symbol: ntX, Model: b.m, Origin: o}}}
@@ -651,7 +659,7 @@ func opsSignature(e *expr) string {
 	seen := map[string]bool{}
 	var walk func(x *expr)
 	walk = func(x *expr) {
-		if len(x.S) > 0 || x.K == "setab" || x.K == "setna" || x.K == "la" {
+		if len(x.S) > 0 || x.K == "setab" || x.K == "setna" || x.K == "setnone" || x.K == "la" {
 			seen[x.K] = true
 		}
 		for _, s := range x.S {
@@ -670,12 +678,25 @@ func opsSignature(e *expr) string {
 	return strings.Join(ks, "+")
 }
 
+func hasKind(e *expr, k string) bool {
+	if e.K == k {
+		return true
+	}
+	for _, s := range e.S {
+		if hasKind(s, k) {
+			return true
+		}
+	}
+	return false
+}
+
 type result struct {
-	key, what string
-	confl     bool
-	sHash     uint64
-	nontriv   bool
-	crossed   bool
+	rejectedEmpty bool
+	key, what     string
+	confl         bool
+	sHash         uint64
+	nontriv       bool
+	crossed       bool
 }
 
 func (p *plain) dump() string {
@@ -717,6 +738,10 @@ func check(cs *cas) (res result) {
 		msg := err.Error()
 		if i := strings.Index(msg, "\n"); i >= 0 {
 			msg = msg[:i]
+		}
+		if hasKind(e, "setnone") && strings.Contains(err.Error(), "token set is empty") {
+			res.rejectedEmpty = true // refusing a set without terminals inside a rule is fine
+			return
 		}
 		res.key = site + ":rejected:" + opsSignature(e)
 		res.what = fmt.Sprintf("body %q produced no plain rules: %s", e.String(), msg)
@@ -760,6 +785,10 @@ func check(cs *cas) (res result) {
 				dir = "extra"
 			}
 			res.key = fmt.Sprintf("%s:lang-%s:%s:%s", site, dir, c.name, opsSignature(e))
+			if hasKind(e, "setnone") {
+				// one root cause: a set without terminals becomes an %empty rule instead of matching nothing
+				res.key = "empty-set-in-rule:" + site + ":lang-" + dir
+			}
 			res.what = fmt.Sprintf("body %q (rr=%b, frame %s): plain rules of %s derive a different language: %q is %s (rules: %s)",
 				e.String(), cs.RR, cs.Frame, c.name, symString(w), map[bool]string{true: "derived but not denoted", false: "denoted but not derived"}[inGot], p.dump())
 			return
@@ -900,7 +929,7 @@ func run(c *core.Ctx) {
 		go func() { time.Sleep(40 * time.Second); pprof.StopCPUProfile(); os.Exit(0) }()
 	}
 	c.Rule("bodies enumerated by (depth, leaves), simplest first, over 6 leaf kinds {ta, tb, X, set(ta|tb), set(~ta), (?= X)}, 5 unary and 2 binary " +
-		"operators: every expression of depth<=2 and of depth 3 with one leaf; first-nonterminal = every body of depth<=1, depth 2 with one leaf and every 8th (thorough: every) body of depth 2 with two leaves, in 13 frames: the first nonterminal named zz / input / Aa / S (generated names sort before, around, after it) x {S: e | tb S, S: S e | tb, S: e | tc Z with Z: tb S | ..., plain}; twins = every ordered pair of two lists over the same element (3 elements ta, X, ta? x 22 list forms with separators of 1..3 terminals, all orders of two terminals and prefixes of each other, + and *) combined as L1 | tc L2 and L1 tc L2; every depth-3 operator shape with 2..4 leaves under a fixed list of leaf " +
+		"operators: every expression of depth<=2 and of depth 3 with one leaf; first-nonterminal = every body of depth<=1, depth 2 with one leaf and every 8th (thorough: every) body of depth 2 with two leaves, in 13 frames: the first nonterminal named zz / input / Aa / S (generated names sort before, around, after it) x {S: e | tb S, S: S e | tb, S: e | tc Z with Z: tb S | ..., plain}; empty-set = every body of depth<=2 with <=2 leaves over {ta, set(ta & tb)} that contains the set without terminals; twins = every ordered pair of two lists over the same element (3 elements ta, X, ta? x 22 list forms with separators of 1..3 terminals, all orders of two terminals and prefixes of each other, + and *) combined as L1 | tc L2 and L1 tc L2; every depth-3 operator shape with 2..4 leaves under a fixed list of leaf " +
 		"labelings (thorough: all 36 labelings for 2 leaves, then all 216 labelings for 3 leaves and 24 more for 4 leaves one labeling per level " +
 		"until 18 minutes have passed). Each body goes " +
 		"through compiler.Compile (tm layer) and through syntax.Expand on a hand-built model with subsets of its lists right-recursive (model layer). " +
@@ -944,6 +973,21 @@ func run(c *core.Ctx) {
 	lab2 := [][]string{{"a", "a"}, {"a", "X"}, {"la", "b"}, {"setab", "setna"}}
 	lab3 := [][]string{{"a", "a", "la"}}
 	lab4 := [][]string{{"a", "la", "a", "X"}}
+	// A set without terminals inside a rule: set(ta & tb) denotes no string at all.
+	levels = append(levels, level{name: "empty-set", masks: "ones", bodies: func() []*expr {
+		b := buildBuckets([]string{"a", "setnone"}, 2, 2)
+		var out []*expr
+		for d := 0; d <= 2; d++ {
+			for n := 1; n <= 2; n++ {
+				for _, e := range b[d][n] {
+					if hasKind(e, "setnone") {
+						out = append(out, e)
+					}
+				}
+			}
+		}
+		return out
+	}})
 	levels = append(levels, level{name: "twins", bodies: twins, masks: "nonzero"})
 	// The first declared nonterminal refers to itself (right and left recursion, mutual recursion with
 	// the second one) and is named so that the generated names sort before it ("zz"), around it
@@ -1015,6 +1059,7 @@ func run(c *core.Ctx) {
 	distinct := map[uint64]bool{}
 	var nCross, nConfl, nModel, nRR, nBodies, nNontriv int64
 	stopped := false
+	otherViolations := 0
 	for _, lv := range levels {
 		if stopped {
 			break
@@ -1096,6 +1141,9 @@ func run(c *core.Ctx) {
 		for _, list := range found { // in enumeration order
 			for _, f := range list {
 				c.Violate(f.key, f.what, f.cs)
+				if !strings.HasPrefix(f.key, "empty-set-in-rule:") {
+					otherViolations++
+				}
 			}
 		}
 		cls := lv.name
@@ -1108,7 +1156,7 @@ func run(c *core.Ctx) {
 			c.Capped("level " + lv.name + " was cut short (budget)")
 			break
 		}
-		if c.ViolationCount() > 0 {
+		if otherViolations > 0 {
 			c.Capped("stopped after the first level with violations (" + lv.name + ")")
 			stopped = true
 		}
